@@ -97,9 +97,8 @@ theorem prefix_records (P : Phys S R D Rec E) (soil soil' : Soil D) (dt M Dy day
   obtain ⟨pre', suf', htr', hpre', _, _⟩ := trace_split dt M Dy days' rows'.length h hv' hh'
   have : pre' = pre := by rw [hpre, hpre']
   subst this
-  unfold simulate
-  rw [htr, htr']
-  simp only []
+  rw [simulate_of_driver_ok P soil dt M Dy days rows s0 _ htr,
+    simulate_of_driver_ok P soil' dt M Dy days' rows' s0 _ htr']
   rw [← hlen]
   apply prefix_lemma
   intro t ht
